@@ -41,7 +41,7 @@ def unslab(k, a):
     return out.reshape((1,)) if out.ndim == 0 else out
 
 
-def make_problem(rng, cls, nmax, periodic_axes=None, uniform_axes=()):
+def make_problem(rng, cls, nmax, periodic_axes=None, uniform_axes=(), geo=None):
     nd = NDIM[cls]
     n = [int(rng.integers(1, nmax + 1)) for _ in range(nd)]
     faces = []
@@ -49,7 +49,13 @@ def make_problem(rng, cls, nmax, periodic_axes=None, uniform_axes=()):
     for k in range(nd):
         fam = 'uniform' if k in uniform_axes else str(rng.choice(gen.FAMILIES))
         fams.append(fam)
-        faces.append(gen.axis_faces(rng, AXKIND[cls][k], n[k], fam, {'full': True} if k in uniform_axes and AXKIND[cls][k] == 'ang' else None))
+        o_ = {'full': True} if k in uniform_axes and AXKIND[cls][k] == 'ang' else {}
+        if geo:
+            gf_, go_ = gen.geo_opts(rng, geo)
+            o_.update(go_)
+            if gf_ and k not in uniform_axes:
+                fam = fams[-1] = gf_
+        faces.append(gen.axis_faces(rng, AXKIND[cls][k], n[k], fam, o_ or None))
     g = Geom(cls, faces)
     if periodic_axes is None:
         capable = [k for k in range(nd) if AXKIND[cls][k] in ('len', 'ang') and abs(g.w[k][0] - g.w[k][-1]) <= 1e-12 * g.w[k][0]]
@@ -271,13 +277,16 @@ def run_case(case):
     tset, mode = case['tset'], case['mode']
     limname = str(rng.choice(LIMITERS))
     nsteps = int(rng.integers(1, 4))
+    if case.get('geo'):
+        nsteps = 1          # one step: on badly conditioned special geometries the lagged TVD term would turn the cond-amplified rounding
+                            # difference of the two first steps into a difference of the second systems (cf. false alarm 5)
     dts = [float(10 ** rng.uniform(-2, 1)) for _ in range(nsteps)]
     alphas = [float(10 ** rng.uniform(-0.5, 0.5)) for _ in range(nsteps)]
     cov, maxerr, bad = {}, {}, []
     transform = None
     if kind == 'embed':
         lowcls, highcls, p = EMBED[case['pair']]
-        P = make_problem(rng, lowcls, 4 if NDIM[lowcls] == 1 else 3)
+        P = make_problem(rng, lowcls, 4 if NDIM[lowcls] == 1 else 3, geo=case.get('geo'))
         st_ = rng.bit_generator.state
 
         def transform(PP):
@@ -287,13 +296,13 @@ def run_case(case):
         label = '%s->%s@%d' % (lowcls, highcls, p)
     elif kind == 'permute':
         cls = case['cls']
-        P = make_problem(rng, cls, 4 if NDIM[cls] == 2 else 3)
+        P = make_problem(rng, cls, 4 if NDIM[cls] == 2 else 3, geo=case.get('geo'))
         transform = lambda PP: permute(PP, tuple(case['perm']))
         Q, lift, info = transform(P)
         label = '%s perm %r' % (cls, case['perm'])
     elif kind == 'mirror':
         cls = case['cls']
-        P = make_problem(rng, cls, 4 if NDIM[cls] < 3 else 3)
+        P = make_problem(rng, cls, 4 if NDIM[cls] < 3 else 3, geo=case.get('geo'))
         transform = lambda PP: mirror(PP, case['axis'])
         Q, lift, info = transform(P)
         label = '%s mirror %d' % (cls, case['axis'])
@@ -381,6 +390,8 @@ def run_case(case):
                     label, step + 1, tset, mode, d, tol_direct)))
                 break
     cov['pair:%s' % kind] = 1
+    if case.get('geo'):
+        cov['geo:' + case['geo']] = 1
     cov['label:%s' % (label if kind == 'embed' else kind + ':' + P['cls'])] = 1
     cov['tset:%s:%s' % (tset, mode)] = 1
     if P['spec']['periodic']:
@@ -452,13 +463,21 @@ def plan(tier, seed):
             c2 = dict(c, bc_edit=True, seed=[seed, 8, 500000 + c['seed'][2]])
             extra.append(c2)
     cases = cases + extra
+    # embedding / relabelling / mirroring on far-off, negative, thin-ended, wildly graded and nanometre grids (implicit, residual-decided)
+    geo_cases = []
+    gi = 0
+    for c in cases[:]:
+        if c['mode'] == 'implicit' and c['kind'] != 'shift' and not c.get('bc_edit'):
+            geo_cases.append(dict(c, geo=['offset', 'negative', 'thinend', 'offset', 'wild'][gi % 5], seed=[seed, 8, 700000 + c['seed'][2]]))
+            gi += 1
+    cases = cases + geo_cases
     step = 12
     return [cases[j:j + step] for j in range(0, len(cases), step)]
 
 
 def floors(agg, tier):
     out = []
-    for k, need in (('pair:embed', 60), ('pair:permute', 40), ('pair:mirror', 40), ('pair:shift', 40), ('with_periodic', 30), ('bc_edit_between_steps:left', 5), ('bc_edit_between_steps:right', 5), ('bc_edit_between_steps:bottom', 5), ('bc_edit_between_steps:top', 5), ('bc_edit_between_steps:back', 3), ('bc_edit_between_steps:front', 3), ('periodic_flag:low', 20), ('periodic_flag:high', 20), ('periodic_flag:both', 20),
+    for k, need in (('pair:embed', 60), ('pair:permute', 40), ('pair:mirror', 40), ('pair:shift', 40), ('with_periodic', 30), ('geo:offset', 15), ('geo:negative', 8), ('geo:thinend', 8), ('bc_edit_between_steps:left', 5), ('bc_edit_between_steps:right', 5), ('bc_edit_between_steps:bottom', 5), ('bc_edit_between_steps:top', 5), ('bc_edit_between_steps:back', 3), ('bc_edit_between_steps:front', 3), ('periodic_flag:low', 20), ('periodic_flag:high', 20), ('periodic_flag:both', 20),
                     ('residual_checks', 100), ('direct_checks', 100)):
         if agg['cov'].get(k, 0) < need:
             out.append('%s < %d' % (k, need))
